@@ -2,8 +2,9 @@
    Statements, `exact`, Print Assumptions only; the proofs are in theories/AssignProofs.v.
    spec_plans (Spec.v): what the format says every entry is; impl_plans (Assign.v): what
    py7zr's _real_get_contents / worker-id arithmetic / kind decision make of the parsed header;
-   embed (AssignProofs.v): the header graph py7zr's parser builds for a specification header
-   (SubStreamsInfo always present). *)
+   embed (AssignProofs.v): the header graph py7zr's parser builds for a specification header that
+   carries its SubStreamsInfo; embed_nosub: the graph for a header that omits the section;
+   embed_nostreams: the graph for a header without MainStreamsInfo. *)
 From P7 Require Import Prelude PyPrims Number Header Spec Assign AssignProofs.
 Open Scope Z_scope.
 
@@ -35,6 +36,37 @@ Theorem C06_assign_conforms_nostreams : forall h, nice h = true -> sh_folders h 
   exists ps, impl_plans (embed_nostreams h) = Ok ps /\ plans_agree 0 (spec_plans h) ps = true.
 Proof. exact assign_conforms_nostreams. Qed.
 Print Assumptions C06_assign_conforms_nostreams.
+
+(* archives without SubStreamsInfo (py7zr: main_streams.substreamsinfo is None after parsing): the format says one
+   sub-stream per folder whose size and CRC are the folder's -- which is what `absent_sub` states of the three
+   sub-stream vectors of the specification header; `sizes_from_last`: the folder's size is its last unpack size
+   (true of every coder chain py7zr decodes) *)
+Theorem C06_absent_sub_spelled_out : forall h,
+  absent_sub h <->
+  (sh_nums h = repeat 1 (length (sh_folders h)) /\
+   s_default_sizes (sh_nums h) (sh_folders h) = Ok (sh_sizes h) /\
+   sh_crcs h = map sf_crc (sh_folders h)).
+Proof. intros h. reflexivity. Qed.
+Print Assumptions C06_absent_sub_spelled_out.
+
+Theorem C06_assign_conforms_no_substreams : forall h,
+  nice h = true -> absent_sub h -> sizes_from_last h = true ->
+  exists ps, impl_plans (embed_nosub h) = Ok ps /\ plans_agree 0 (spec_plans h) ps = true.
+Proof. exact assign_conforms_no_substreams. Qed.
+Print Assumptions C06_assign_conforms_no_substreams.
+
+(* the object _real_get_contents installs in the graph for the absent section, and reading the graph again *)
+Theorem C06_install_sub_embed_nosub : forall h,
+  install_sub (embed_nosub h) =
+  mkHeader (Some (mkStreams (Some (embed_pack h)) (Some (map embed_folder (sh_folders h)))
+                            (Some (mkSub (repeat 1 (length (sh_folders h))) None
+                                         (map is_some (map sf_crc (sh_folders h))) (map or0 (map sf_crc (sh_folders h)))))))
+           (Some (sh_files h)) (sh_emptyfile h).
+Proof. exact install_sub_embed_nosub. Qed.
+Print Assumptions C06_install_sub_embed_nosub.
+Theorem C06_impl_plans_install_sub : forall h, impl_plans (install_sub h) = impl_plans h.
+Proof. exact impl_plans_install_sub. Qed.
+Print Assumptions C06_impl_plans_install_sub.
 
 (* the EmptyFile vector is not consulted by the assignment *)
 Theorem C06_impl_ignores_emptyfile_vector : forall st fl ef ef',
@@ -86,14 +118,24 @@ Theorem C06_kind_from_attribute_refuted :
 Proof. exact assign_kind_from_attribute_refuted. Qed.
 Print Assumptions C06_kind_from_attribute_refuted.
 
-Theorem C06_no_substreams_refuted :
-  (forall pk fs fl ef, existsb (fun e => negb (e_emptystream e)) fl = true ->
-     impl_plans (mkHeader (Some (mkStreams (Some pk) (Some fs) None)) (Some fl) ef) = Err EOther) /\
-  (exists h g, s_header 100 w_nosub_bytes = Ok h /\ nice h = true /\
-     map (fun p => (pl_kind p, pl_folder p, pl_offset p, pl_size p)) (spec_plans h) = [(0, 0, 0, 5)] /\
-     parse_header 100 w_nosub_bytes = Ok g /\ impl_plans g = Err EOther).
-Proof. exact assign_no_substreams_refuted. Qed.
-Print Assumptions C06_no_substreams_refuted.
+(* a header without SubStreamsInfo, read from its bytes by both parsers: the hypotheses above hold of what the
+   specification reader yields, py7zr's parser yields embed_nosub of it, the member is assigned as the format says;
+   before the repair (impl_plans_before_repair: `subinfo` None and dereferenced) the assignment raised *)
+Theorem C06_no_substreams_conforms :
+  exists h, s_header 100 w_nosub_bytes = Ok h /\ nice h = true /\ absent_sub h /\ sizes_from_last h = true /\
+    parse_header 100 w_nosub_bytes = Ok (embed_nosub h) /\
+    map (fun p => (pl_kind p, pl_folder p, pl_offset p, pl_size p)) (spec_plans h) = [(0, 0, 0, 5)] /\
+    (exists ps, impl_plans (embed_nosub h) = Ok ps /\ map iplan_view ps = [(0, 0, 0, 0, 5)] /\
+                plans_agree 0 (spec_plans h) ps = true) /\
+    impl_plans_before_repair (embed_nosub h) = Err EOther.
+Proof. exact assign_no_substreams_conforms. Qed.
+Print Assumptions C06_no_substreams_conforms.
+
+Theorem C06_before_repair_refuted :
+  forall pk fs fl ef, existsb (fun e => negb (e_emptystream e)) fl = true ->
+    impl_plans_before_repair (mkHeader (Some (mkStreams (Some pk) (Some fs) None)) (Some fl) ef) = Err EOther.
+Proof. exact assign_before_repair_refuted. Qed.
+Print Assumptions C06_before_repair_refuted.
 
 (* C. every member is delivered once, under its own index, from the right position: the members of
    a folder, in archive order, occupy consecutive intervals from 0 to the sum of the folder's
@@ -153,3 +195,12 @@ Example C06_nice_nostreams_example :
   nice h = true /\ sh_folders h = [] /\
   exists ps, impl_plans (embed_nostreams h) = Ok ps /\ map iplan_view ps = [(0, 2, -1, 0, 0); (1, 1, -1, 0, 0)].
 Proof. exact nice_nostreams_example. Qed.
+Example C06_no_substreams_example :
+  nice w_nosub3 = true /\ absent_sub w_nosub3 /\ sizes_from_last w_nosub3 = true /\
+  exists ps, impl_plans (embed_nosub w_nosub3) = Ok ps /\
+    map (fun p => (ip_id p, ip_kind p, ip_folder p, ip_offset p, ip_size p, ip_crc p)) ps =
+      [(0, 2, -1, 0, 0, None); (1, 0, 0, 0, 3, Some 11); (2, 1, -1, 0, 0, None); (3, 0, 1, 0, 0, None);
+       (4, 2, -1, 0, 0, None); (5, 0, 2, 0, 4, Some 13); (6, 2, -1, 0, 0, None)] /\
+    plans_agree 0 (spec_plans w_nosub3) ps = true /\
+    impl_plans_before_repair (embed_nosub w_nosub3) = Err EOther.
+Proof. exact assign_no_substreams_example. Qed.
